@@ -76,6 +76,13 @@ class OptimizerBase(abc.ABC):
         initial_params = copy.copy(clamp.params)
 
         def fquality(clamp, junction, params):
+            if clamp.bounds is not None:
+                # finite differences must not step over clamp's bounds
+                # (a curve, for instance, is not defined there)
+                lower = [-np.inf if bound[0] is None else bound[0] for bound in clamp.bounds]
+                upper = [np.inf if bound[1] is None else bound[1] for bound in clamp.bounds]
+                params = np.clip(params, lower, upper)
+
             clamp.update_params(params)
             self.grid.update(junction.index, clamp.position)
             return junction.quality
